@@ -173,7 +173,7 @@ def run(prop, tier, seed, replay=None):
             raise vf.ToolError(f"predicted verdict classes incomplete: {sorted(preds)}")
         scns = [json.dumps(j) for j in mc]
         gen = work / "gen.scn.ndjson"
-        avh11(["gen", "--seed", seed, "--count", 1200 if tier == "quick" else 12000, "--out", gen])
+        avh11(["gen", "--seed", seed, "--count", 1000 if tier == "quick" else 12000, "--out", gen])
         scns += [l for l in gen.read_text().splitlines() if l.strip()]
         scns += literals()
         rep.cov["exhaustive"] = False
